@@ -445,14 +445,6 @@ func execLife(o *Out, id, line string) {
 			}
 		}
 		o.Count("lr-" + typ)
-		// flate.Reader and bzip2.Reader also go to their API-level models (kind lrm, see fam_lrm.go)
-		scn, res := "", strings.Join(trace, "|")
-		if kv["model"] != "0" {
-			if m, mres, ok := lrModel(o, id, line, typ, srcKind, streams, fail, etag, kv["ops"]); ok {
-				scn, res = m, mres
-			}
-		}
-		o.Emit(id, line, scn, res, typ+kv["ops"]+kv["streams"][:min(len(kv["streams"]), 40)]+kv["fail"])
 		if typ == "meta" && rd != nil {
 			failStr := "-"
 			switch srcKind {
@@ -472,7 +464,14 @@ func execLife(o *Out, id, line string) {
 				strings.Join(res, "|"), typ+kv["ops"]+kv["streams"][:min(len(kv["streams"]), 40)]+kv["fail"]+srcKind)
 			return
 		}
-		o.Emit(id, line, "", strings.Join(trace, "|"), typ+kv["ops"]+kv["streams"][:min(len(kv["streams"]), 40)]+kv["fail"])
+		// flate.Reader and bzip2.Reader also go to their API-level models (kind lrm, see fam_lrm.go)
+		scn, lres := "", strings.Join(trace, "|")
+		if kv["model"] != "0" {
+			if m, mres, ok := lrModel(o, id, line, typ, srcKind, streams, fail, etag, kv["ops"]); ok {
+				scn, lres = m, mres
+			}
+		}
+		o.Emit(id, line, scn, lres, typ+kv["ops"]+kv["streams"][:min(len(kv["streams"]), 40)]+kv["fail"])
 	case "lxf": // xflate.Reader over a ReadSeeker that fragments its data (C10): same result as over bytes.Reader
 		data := unhx(kv["stream"])
 		var frags []int
